@@ -15,7 +15,7 @@ use crate::settings_handlers::{Context, Program, System};
 //@ struct instructions/adaptive_fee/initialize_adaptive_fee_tier.rs InitializeAdaptiveFeeTier
 //@ constraints instructions/adaptive_fee/initialize_adaptive_fee_tier.rs InitializeAdaptiveFeeTier
 //@ fn instructions/adaptive_fee/initialize_adaptive_fee_tier.rs handler -> r as=initialize_adaptive_fee_tier_handler canary
-    requires constraints_InitializeAdaptiveFeeTier(old(ctx.accounts)),
+    requires constraints_InitializeAdaptiveFeeTier(old(ctx.accounts), fee_tier_index),
     ensures
         r is Ok ==> old(ctx.accounts).fee_authority.skey() == old(ctx.accounts).whirlpools_config.data.fee_authority && old(ctx.accounts).fee_authority.info.is_signer, //# C04
         r is Ok ==> ({ let t = final(ctx.accounts).adaptive_fee_tier.data;
